@@ -211,6 +211,76 @@ theorem C08_foreign_flat_text (name : Text) (cs : List Var) (kw w0 w1 : Text) (i
   rw [fparse kw w0 w1 its trail hkw h0 h1 hok]
   simp [Except.toOption, flat_attach name cs _ hG hself]
 
+/-! ### the client pipeline over histories of openings; `add_attributes` consumes its argument -/
+
+/-- **`add_attributes` consumes the parsed DAS**: after attaching the parsed DAS of a served dataset, the caller's dict
+    holds the plain global attributes only — the NC_GLOBAL/DODS_EXTRA containers and every variable's container have
+    been popped out of it.  (This is why `DAPHandler.attach_das` must hand a freshly parsed dict to every call.) -/
+theorem C08_attach_consumes (ds : Dataset) (hg : DsG ds) :
+    addAttributesRem ds.name ds.children (dsDict ds)
+      = .ok (expected ds, (sortKeys ds.attrs).filter notGlobal) :=
+  attach_tree_rem ds hg
+
+/-- **what a memoised `parse_das` would do**: if the dict left over by a first opening is attached again (the same
+    object served from a cache keyed by the DAS text), EVERY variable ends up with no attributes at all. -/
+theorem C08_memo_second_opening (ds : Dataset) (hok : DsOk ds) (hg : Guard ds) :
+    ∃ g, memoSecondOpening ds.name ds.children (dasText ds)
+      = some (.ok ⟨g, (walkVars [] ds.children).reverse.map fun p => (p, [])⟩) := by
+  unfold memoSecondOpening
+  rw [parse_print ds hok, denote_ds ds hg.1 hg.2.1 hg.2.2]
+  simp only [attach_tree_rem ds hg.1]
+  have hR : ∀ v ∈ ds.children, v.name ∉ keys ((sortKeys ds.attrs).filter notGlobal) := by
+    intro v hv hk
+    have h1 := mem_keys_filter_sort _ _ _ hk
+    have := (List.nodup_append.mp hg.1.nodup).2.2
+    exact this _ h1 _ (List.mem_map_of_mem hv) rfl
+  have hdot : NoDot (keys ((sortKeys ds.attrs).filter notGlobal)) := by
+    intro k hk
+    exact hg.1.nodot k (by simp [mem_keys_filter_sort _ _ _ hk])
+  have hff : ((sortKeys ds.attrs).filter notGlobal).filter (fun kv => !isGlobalDict kv)
+      = (sortKeys ds.attrs).filter notGlobal := by
+    unfold notGlobal; simp [List.filter_filter]
+  obtain ⟨⟨A2, g1⟩, h2⟩ := attachStep_ok ((sortKeys ds.attrs).filter notGlobal) [ds.name]
+    (mergeGlobals ((sortKeys ds.attrs).filter notGlobal) [])
+  refine ⟨dupdate g1 A2, ?_⟩
+  unfold addAttributes
+  simp only [hff, visit_miss ds.children _ hR hdot, h2]
+
+/-- **the client must parse per opening**: a client that reuses the parsed dict of an earlier opening does NOT hold what
+    `DAPHandler.attach_das` (fresh `parse_das` per call) holds — refuted on a dataset of the guarded domain. -/
+theorem C08_memo_refuted :
+    ¬ (∀ ds : Dataset, DsOk ds → Guard ds →
+        memoSecondOpening ds.name ds.children (dasText ds) = clientAttach ds.name ds.children (dasText ds)) := by
+  intro h
+  have h1 := h exSmall exSmall_ok exSmall_guard
+  obtain ⟨g, h2⟩ := C08_memo_second_opening exSmall exSmall_ok exSmall_guard
+  have h3 : clientAttach exSmall.name exSmall.children (dasText exSmall) = some (.ok (expected exSmall)) := by
+    unfold clientAttach
+    rw [parse_print exSmall exSmall_ok, denote_ds exSmall exSmall_guard.1 exSmall_guard.2.1 exSmall_guard.2.2]
+    simp only [attach_tree exSmall exSmall_guard.1, expected]
+  rw [h2, h3] at h1
+  injection h1 with h1
+  injection h1 with h1
+  have h4 := congrArg (fun r : Attached => r.vars.map (fun pd : List Text × Dict => pd.2.length)) h1
+  simp only at h4
+  revert h4
+  decide
+
+/-- **the client pipeline is a function of the DAS text alone, over any history**: whatever datasets were opened
+    before, in whatever order and however often, sharing DAS text or not, the i-th opening holds `clientAttach` of its
+    own (name, tree, text) — and for served datasets of the guarded domain exactly `expected ds`. -/
+theorem C08_history_roundtrip (dss : List Dataset) (h : ∀ ds ∈ dss, DsOk ds ∧ Guard ds) :
+    clientHistory (dss.map fun ds => (ds.name, ds.children, dasText ds))
+      = dss.map fun ds => some (.ok (expected ds)) := by
+  unfold clientHistory
+  rw [List.map_map]
+  apply List.map_congr_left
+  intro ds hds
+  obtain ⟨hok, hg⟩ := h ds hds
+  simp only [Function.comp, clientAttach]
+  rw [parse_print ds hok, denote_ds ds hg.1 hg.2.1 hg.2.2]
+  simp only [attach_tree ds hg.1, expected]
+
 /-- **unguarded statement refuted (1)**: over the DAS-safe domain alone the round trip is false — a
     one-element list comes back as a scalar (finding C08.short_list). -/
 theorem C08_roundtrip_refuted : ¬ (∀ ds : Dataset, DsOk ds → roundTrip ds = some (.ok (expected ds))) := by
@@ -324,6 +394,26 @@ example : reduceGet (.dict [("s".toList, .dict [("a".toList, .dict [])])]) ["s".
 example : reduceGet (.dict [("s".toList, .dict [])]) ["t".toList] = .error .keyError := rfl
 example : dget (([("title".toList, AVal.sc (.str "t".toList)), ("NC_GLOBAL".toList, .dict [])] : Dict).filter
     fun kv => !isGlobalDict kv) "d".toList = none := rfl
+
+-- repaired add_attributes: a parsed dict in which the name of the Structure `s` is a plain number, the id path of
+-- `s.a` runs through it (`7["a"]`: TypeError before the repair) and the dataset's own name is a string — no error,
+-- everything stays a global attribute
+example : addAttributes "d".toList exTmpl [("s".toList, .sc (.num "7".toList false)), ("d".toList, .sc (.str "ab".toList))]
+    = .ok ⟨[("s".toList, .sc (.num "7".toList false)), ("d".toList, .sc (.str "ab".toList))],
+           [(["b".toList], []), (["s".toList, "a".toList], []), (["s".toList], [])]⟩ := rfl
+-- keep-around: the hypotheses of `C08_placement_keep` on a Grid `g` with the plain attribute `x` named like its member
+example : (∀ e, dget [("g".toList, AVal.dict [("x".toList, .sc (.str []))])] (dotted ["g".toList, "x".toList]) ≠ some (.dict e))
+    ∧ ["g".toList, "x".toList].getLast? = some "x".toList
+    ∧ reduceGet (.dict [("g".toList, .dict [("x".toList, .sc (.str []))])]) ["g".toList, "x".toList].dropLast
+        = .ok (.dict [("x".toList, .sc (.str []))])
+    ∧ dget [("x".toList, AVal.sc (.str []))] "x".toList = some (.sc (.str [])) :=
+  ⟨(by intro e h; cases h), rfl, rfl, rfl⟩
+-- histories: a history that opens the same dataset three times satisfies the hypothesis of `C08_history_roundtrip`
+example : ∀ ds ∈ [exSmall, exSmall, exSmall], DsOk ds ∧ Guard ds := by
+  intro ds h; simp at h; subst h; exact ⟨exSmall_ok, exSmall_guard⟩
+-- consumption: what a first opening of `exSmall` leaves in the parsed dict is the plain global attribute only
+example : addAttributesRem exSmall.name exSmall.children (dsDict exSmall)
+    = .ok (expected exSmall, [("title".toList, .sc (.str "t; {x}".toList))]) := C08_attach_consumes exSmall exSmall_guard.1
 
 /-! ### whole texts and whole datasets (kernel evaluation of the model on concrete inputs) -/
 
